@@ -13,7 +13,7 @@ import (
 func init() {
 	register("C18", &ruleSet{
 		run:    runC18,
-		floors: map[string]int{"O1": 6, "O2": 3, "O3": 4, "O4": 1, "O5": 2, "O6": 4},
+		floors: map[string]int{"O1": 6, "O2": 3, "O3": 4, "O4": 1, "O5": 2, "O6": 4, "O7": 4},
 		explain: "Decides the structural clauses of the measurement primitives (all numeric clauses - mean during warm-up, hull bounds, variance >= 0, percentile accuracy - are " +
 			"not applicable to a static argument): (O1) Reset is complete: every field that Add/Update can write, followed through owned sub-measurements, is re-initialised by " +
 			"Reset to the value the constructor gives it (a zero constant, the immutable 'initial' field the constructor set from the same argument, or the sub-measurement's own " +
@@ -34,6 +34,8 @@ func runC18(p *Prog, l *Ledger) {
 	l.Rule("O4", "latest value: SingleMeasurement.Add stores exactly its argument")
 	l.Rule("O5", "every sample is folded in: each Add path of an averaging measurement stores a value computed from the sample; a warm-up path also counts it (+1) and adds it to the running sum exactly once")
 	l.Rule("O6", "Update is atomic: the value handed to the operation is read, and the result stored back, within one exclusive critical section - unless the result is merged through Add")
+	l.Rule("O7", "the sample window summarises exactly the samples added (decided by the C09/O2 and O4 rules on the same tree): a new window starts from the fold's identity - count 0, sum 0, no drop, minimum +infinity - and the Add methods are the fold")
+	importObligations(p, l, "C09", "O7", func(o *Obligation) bool { return o.Rule == "O2" || o.Rule == "O4" })
 	l.NotCovered = []string{"arithmetic mean during warm-up", "exponential average stays within the hull of the samples", "variance >= 0", "percentile accuracy", "flag of the composite types (SimpleMovingVariance, WindowlessMovingPercentile) whose stored value is not a single field"}
 
 	mi := p.coreIface("MeasurementInterface")
